@@ -597,6 +597,11 @@ class SymPyFloat(SymF64):
     __slots__ = ()
     __class__ = float
 
+class SymPyBool(SymBool):
+    """A Python bool with a symbolic value; isinstance(x, bool) holds."""
+    __slots__ = ()
+    __class__ = bool
+
 # datetime units: ticks per day for D; relation between units
 _UNIT_FACTOR = {"D": 86400 * 10**6, "h": 3600 * 10**6, "m": 60 * 10**6, "s": 10**6, "ms": 1000, "us": 1}
 
@@ -676,6 +681,25 @@ class SymTD:
     def __init__(self, e, unit="generic"):
         self.e = e if z3.is_expr(e) else z3.BitVecVal(int(e), 64)
         self.unit = unit
+    def _c(self, o, f, nat_result=False):
+        if not isinstance(o, SymTD): return NotImplemented
+        if self.unit != o.unit and "generic" not in (self.unit, o.unit):
+            raise ModelGap("timedelta comparison across units")
+        ok = z3.And(self.e != INT64_MIN, o.e != INT64_MIN)
+        return SymBool(z3.If(ok, f(self.e, o.e), z3.BoolVal(nat_result)))
+    def __eq__(self, o):
+        r = self._c(o, lambda a, b: a == b)
+        return False if r is NotImplemented else r
+    def __ne__(self, o):
+        r = self._c(o, lambda a, b: a != b, nat_result=True)
+        return True if r is NotImplemented else r
+    def __lt__(self, o): return self._c(o, lambda a, b: a < b)
+    def __gt__(self, o): return self._c(o, lambda a, b: a > b)
+    def __le__(self, o): return self._c(o, lambda a, b: a <= b)
+    def __ge__(self, o): return self._c(o, lambda a, b: a >= b)
+    def isnat(self): return SymBool(self.e == INT64_MIN)
+    def item(self): return self
+    def __repr__(self): return f"SymTD({z3.simplify(self.e)},{self.unit})"
     def __hash__(self): return 0
 
 # --------------------------------------------------------------------------- bounded strings
